@@ -148,7 +148,8 @@ def run_migration_target(ctx):
             if cb is None:
                 continue
             for _, tt in cb.calls():
-                if (tt["inst"] or tt["callee"]).endswith(("PartialEq::ne", "::ne")) and any(".id" in cb.desc(a) or cb.desc(a).endswith("id") for a in tt["args"]):
+                # `w.id != source` or `!(w.id == source)`: an identity comparison of the candidate with the source
+                if (tt["inst"] or tt["callee"]).endswith(("PartialEq::ne", "::ne", "PartialEq::eq", "::eq")) and any(".id" in cb.desc(a) or cb.desc(a).endswith("id") for a in tt["args"]):
                     excl = True
         key = "migration-target:%s" % fn
         if excl:
